@@ -75,7 +75,11 @@ func ToBool(v any) (bool, error) {
 	case uint, uint8, uint16, uint32, uint64:
 		return reflect.ValueOf(x).Uint() != 0, nil
 	case float32, float64:
-		return reflect.ValueOf(x).Float() != 0, nil
+		f := reflect.ValueOf(x).Float()
+		if math.IsNaN(f) {
+			return false, NewFormatError("NaN", "bool")
+		}
+		return f != 0, nil
 	default:
 		return false, NewUnsupportedError(fmt.Sprintf("%T", d), "bool")
 	}
@@ -202,18 +206,9 @@ func ToInt64(v any) (int64, error) {
 		}
 		return int64(x), nil
 	case float32:
-		if math.Trunc(float64(x)) != float64(x) {
-			return 0, NewNotWholeError(x)
-		}
-		return int64(x), nil
+		return floatToInt64(float64(x))
 	case float64:
-		if math.Trunc(x) != x {
-			return 0, NewNotWholeError(x)
-		}
-		if x > math.MaxInt64 || x < math.MinInt64 {
-			return 0, NewOverflowError(x, "int64")
-		}
-		return int64(x), nil
+		return floatToInt64(x)
 	case string:
 		return stringToInt64(x)
 	case bool:
@@ -224,6 +219,20 @@ func ToInt64(v any) (int64, error) {
 	default:
 		return 0, NewUnsupportedError(fmt.Sprintf("%T", d), "int64")
 	}
+}
+
+// floatToInt64 converts a float that holds a whole number in the int64 range.
+// NaN and fractional values are not whole; the range test is written against
+// the exactly representable bounds -2^63 and 2^63 (math.MaxInt64 itself rounds
+// up to 2^63 as a float64), so it also rejects +-Inf.
+func floatToInt64(f float64) (int64, error) {
+	if math.Trunc(f) != f {
+		return 0, NewNotWholeError(f)
+	}
+	if f < -(1<<63) || f >= 1<<63 {
+		return 0, NewOverflowError(f, "int64")
+	}
+	return int64(f), nil
 }
 
 func stringToInt64(s string) (int64, error) {
@@ -261,11 +270,9 @@ func ToFloat64(v any) (float64, error) {
 	case uint, uint8, uint16, uint32, uint64:
 		return float64(reflect.ValueOf(x).Uint()), nil
 	case *big.Int:
-		f, _ := x.Float64()
-		return f, nil
+		return bigIntToFloat64(x)
 	case big.Int:
-		f, _ := x.Float64()
-		return f, nil
+		return bigIntToFloat64(&x)
 	case complex64:
 		c := complex128(x)
 		return math.Sqrt(real(c)*real(c) + imag(c)*imag(c)), nil
@@ -284,13 +291,29 @@ func ToFloat64(v any) (float64, error) {
 }
 
 func stringToFloat64(s string) (float64, error) {
+	return stringToFloat(s, 64)
+}
+
+// stringToFloat parses s at the given precision; like a NaN value, the text
+// "NaN" is rejected.
+func stringToFloat(s string, bitSize int) (float64, error) {
 	trimmed := strings.TrimSpace(s)
 	if trimmed == "" {
 		return 0, nil
 	}
-	f, err := strconv.ParseFloat(trimmed, 64)
-	if err != nil {
-		return 0, NewFormatError(s, "float64")
+	f, err := strconv.ParseFloat(trimmed, bitSize)
+	if err != nil || math.IsNaN(f) {
+		return 0, NewFormatError(s, fmt.Sprintf("float%d", bitSize))
+	}
+	return f, nil
+}
+
+// bigIntToFloat64 returns the nearest float64, or an error when the magnitude
+// is beyond the float64 range (big.Int.Float64 would yield +-Inf).
+func bigIntToFloat64(x *big.Int) (float64, error) {
+	f, _ := x.Float64()
+	if math.IsInf(f, 0) {
+		return 0, NewOverflowError(x.String(), "float64")
 	}
 	return f, nil
 }
@@ -380,18 +403,15 @@ func ToInteger[T ~int | ~int8 | ~int16 | ~int32 | ~int64 | ~uint | ~uint8 | ~uin
 		}
 		val = int64(x)
 	case float32:
-		if float64(x) > math.MaxInt64 || float64(x) < math.MinInt64 {
-			return zero, NewOverflowError(x, "int64")
+		val, err = floatToInt64(float64(x))
+		if err != nil {
+			return zero, err
 		}
-		val = int64(x)
 	case float64:
-		if math.Trunc(x) != x {
-			return zero, NewNotWholeError(x)
+		val, err = floatToInt64(x)
+		if err != nil {
+			return zero, err
 		}
-		if x > math.MaxInt64 || x < math.MinInt64 {
-			return zero, NewOverflowError(x, "int64")
-		}
-		val = int64(x)
 	case string:
 		val, err = stringToInt64(x)
 		if err != nil {
@@ -423,20 +443,56 @@ func ToFloat[T ~float32 | ~float64](v any) (T, error) {
 	}
 
 	if result, ok := d.(T); ok {
+		if math.IsNaN(float64(result)) {
+			return zero, NewFormatError("NaN", fmt.Sprintf("%T", zero))
+		}
 		return result, nil
+	}
+
+	if _, ok := any(zero).(float32); ok {
+		f, err := toFloat32(d)
+		if err != nil {
+			return zero, err
+		}
+		return T(f), nil
 	}
 
 	fval, err := ToFloat64(d)
 	if err != nil {
 		return zero, err
 	}
-
-	if _, ok := any(zero).(float32); ok {
-		if math.Abs(fval) > math.MaxFloat32 {
-			return zero, NewOverflowError(fval, "float32")
-		}
-	}
 	return T(fval), nil
+}
+
+// toFloat32 converts integers, strings and big integers straight to float32,
+// so that the value is rounded once (going through float64 first rounds
+// twice and can be off by one float32 ulp); everything else goes through
+// ToFloat64 and must fit the float32 range.
+func toFloat32(d any) (float32, error) {
+	switch x := d.(type) {
+	case int, int8, int16, int32, int64:
+		return float32(reflect.ValueOf(x).Int()), nil
+	case uint, uint8, uint16, uint32, uint64:
+		return float32(reflect.ValueOf(x).Uint()), nil
+	case string:
+		f, err := stringToFloat(x, 32)
+		return float32(f), err
+	case big.Int:
+		f, _ := new(big.Float).SetInt(&x).Float32()
+		if math.IsInf(float64(f), 0) {
+			return 0, NewOverflowError(x.String(), "float32")
+		}
+		return f, nil
+	}
+
+	fval, err := ToFloat64(d)
+	if err != nil {
+		return 0, err
+	}
+	if math.Abs(fval) > math.MaxFloat32 {
+		return 0, NewOverflowError(fval, "float32")
+	}
+	return float32(fval), nil
 }
 
 func checkIntegerTypeBounds[T ~int | ~int8 | ~int16 | ~int32 | ~int64 | ~uint | ~uint8 | ~uint16 | ~uint32 | ~uint64](v int64, target T) error {
